@@ -1,7 +1,7 @@
 """C02 - remove deletes exactly the matching points and nothing else (DESIGN 4, C02)."""
 
 from .. import ladder, observers, qast, world as W
-from .base import E1Check, viol, wide_configs
+from .base import E1Check, viol, buffered_writes_off, wide_configs, option_configs, CFG4
 from .c01 import std_ops
 
 REMOVE_OPS = ("remove", "drop", "h_remove_all", "remove_all")
@@ -48,7 +48,7 @@ class C02(E1Check):
                 c["D"] = 4 if c["storage"] == "mem" else 3
         lad = ladder.configs(self.ladder_sizes(), storages=("mem", "csv"), autos=(True,), D=2, big_depth=1 if self.tier == "quick" else None)
         lad += ladder.configs(self.ladder_sizes()[:1], storages=("csv",), autos=(False,), D=2)
-        return cfgs + wide_configs(("mem", "csv"), D=1 if self.tier == "quick" else 2) + lad
+        return cfgs + option_configs(self.tier) + wide_configs(("mem", "csv"), D=1 if self.tier == "quick" else 2) + lad
 
     def budget(self):
         return 600 if self.tier == "quick" else 1200
@@ -64,13 +64,13 @@ class C02(E1Check):
                 P.append(("remove", ast, None, "h:zz"))
             P += [("drop", "m"), ("drop", "zz"), ("h_remove_all", "m"), ("h_remove_all", "n"), ("h_remove_all", "zz")]
             self._probes = P
-            self._probe_set = set(P)
+            # what is a probe must not depend on which configuration a worker happens to see first (replay fidelity)
+            self._probe_set = set(P) - {op for c in CFG4 for op in std_ops(self.alpha, c, self.tier)}
         return self._probes
 
     def op_list(self, cfg):
         self.probes()
         base = std_ops(self.alpha, cfg, self.tier)
-        self._probe_set -= set(base)
         return base + [p for p in self._probes if p in self._probe_set]
 
     def ladder_op_list(self, cfg):
@@ -79,11 +79,11 @@ class C02(E1Check):
         extra = [("remove", q, m, "db") for q in self.ladder_vocab(n) for m in (None, "big")]
         extra += [("remove", self.ladder_vocab(n)[3], None, "h:big"), ("drop", "big"), ("h_remove_all", "m")]
         have = set(base)
-        self._ladder_probes = {e for e in extra if e not in have}
+        self._lp[cfg["name"]] = {e for e in extra if e not in have}
         return base + [e for e in extra if e not in have]
 
-    def is_probe(self, op):
-        return op in getattr(self, "_probe_set", ()) or op in getattr(self, "_ladder_probes", ())
+    def is_std_probe(self, op):
+        return op in self._probe_set
 
     def coverage_extra(self, res):
         return {"removal_probes_per_state": len(self.probes())}
@@ -112,9 +112,9 @@ class C02(E1Check):
             out.append(viol("remove-contents", sig + "|" + what, observed=T.post, expected=exp, detail=f"pre={T.pre!r}"))
         if T.outcome[:2] != exp_out:
             out.append(viol("remove-count", sig + "|count", observed=T.outcome, expected=exp_out))
-        if nsel == 0 and T.pre_bytes is not None and T.pre_bytes != T.post_bytes:
+        if nsel == 0 and T.pre_bytes is not None and buffered_writes_off(T.cfg) and T.pre_bytes != T.post_bytes:
             out.append(viol("noop-remove-bytes", sig + "|noop-changes-file", observed=T.post_bytes, expected=T.pre_bytes))
-        if not out and T.post_valid and self.is_probe(T.op):
+        if not out and T.post_valid and self.is_probe(T.op, T.cfg):
             # the successor of a probe is not explored further: at least its index must equal a rebuild
             out += [dict(v, kind="transition") for v in observers.index_equiv("C02", T.world.db, T.post, self.ivocab, counters, tag=f"|after-{k}")]
         return out
